@@ -127,6 +127,9 @@ pub fn run(run: &Run) {
         rp::<volute::Lut>(run, false, n);
         for_static!(n, rp(run, true, n));
     }
+    for n in 13..=14usize {
+        rp::<volute::Lut>(run, false, n);
+    }
     let tier = run.tier.name().to_string();
     child_run_with(run, "LSX_RNG", "rng-shim", &["run", &tier], &[]);
     run.extra("real_rand_part", J::s("statistical binding run: 256 draws x 17 threads x 13 sizes x 2 types; excluded from the determinism digest"));
